@@ -233,6 +233,22 @@ def gen_program(rng):
     return {"tb": tb, "parts": parts, "explicit_tr": ntr > 1 or rng.random() < 0.3}
 
 
+def gen_long_gate_program(rng):
+    """a group whose early notes carry a gate far above 100 % (their own note-off would fall AFTER the end of the group): in
+    mode 3 every note is held exactly to the end of the group, in modes 0-2 the group is cut as usual.  Pairwise different
+    pitches, so that the untied reference (whose notes overlap) pairs note-ons and note-offs unambiguously; a long rest after
+    the group keeps what follows clear of the overlong reference notes."""
+    names = rng.sample(list("cdefgab"), rng.choice([2, 3, 3, 4, 5]))
+    nlong = rng.randint(1, len(names) - 1)
+    leaves = []
+    for i, nm in enumerate(names):
+        last = i == len(names) - 1
+        suf = ",%d" % rng.choice([150, 200, 300, 400]) if i < nlong else rng.choice(["", "", ",100", ",50"])
+        leaves.append(("note", nm, rng.choice(["4", "8", "", "4"]) if i < nlong else rng.choice(["8", "16", "4", ""]), suf, "" if last else "&", True))
+    items = [("slur", rng.choice([3, 3, 3, 2, 0, 1]), None)] + leaves + [("plain", MARK), ("cmd", "r1"), ("note", rng.choice("cdefgab"), "", "", "", False), ("plain", MARK)]
+    return {"tb": rng.choice([96, 96, 48, 480]), "parts": [(1, items)], "explicit_tr": rng.random() < 0.3}
+
+
 def program_text(p, variant):
     out = []
     if p["tb"] != 96:
@@ -429,7 +445,7 @@ def remove_multiset(big, small):
 # ------------------------------------------------------------------------------------------------------------------
 def structured(ctx, n):
     rng = ctx.rng
-    progs = [gen_program(rng) for _ in range(n)]
+    progs = [gen_program(rng) for _ in range(n - n // 20)] + [gen_long_gate_program(rng) for _ in range(n // 20)]
     srcT = [program_text(p, "T") for p in progs]
     srcU = [program_text(p, "U") for p in progs]
     srcR = [program_text(p, "R") for p in progs]
